@@ -80,3 +80,11 @@ func VerifDrain() int {
 	cc.notifyWatcher()
 	return n
 }
+
+// VerifWithLock runs f while holding the package lock (used to build a lock convoy: callers of Call,
+// Cancel and the workers queue up behind f and are let go in the order the mutex decides).
+func VerifWithLock(f func()) {
+	cc.lock.Lock()
+	defer cc.lock.Unlock()
+	f()
+}
